@@ -1630,12 +1630,9 @@ impl AggregationState {
                     if old_idx >= self.key_order.len() {
                         continue;
                     }
-                    // Check if this slot has data
-                    let has_data = !self.key_order[old_idx]
-                        .values
-                        .iter()
-                        .all(|v| matches!(v, ScalarValue::Null));
-                    if !has_data {
+                    // Check if this slot has data (a group whose key is NULL
+                    // in every column has an all-NULL key_order entry too)
+                    if !Self::slot_has_data(&self.key_order[old_idx], &self.perfect_accs[old_idx]) {
                         continue;
                     }
 
@@ -2700,11 +2697,7 @@ impl AggregationState {
                     if old_idx >= self.key_order.len() {
                         continue;
                     }
-                    let has_data = !self.key_order[old_idx]
-                        .values
-                        .iter()
-                        .all(|v| matches!(v, ScalarValue::Null));
-                    if !has_data {
+                    if !Self::slot_has_data(&self.key_order[old_idx], &self.perfect_accs[old_idx]) {
                         continue;
                     }
 
